@@ -2,9 +2,33 @@
    list, prod, sumbool, sumor map to the OCaml types; andb/orb are inlined.
    nat, N, Z, positive stay the Coq inductives. *)
 From Coq Require Import ExtrOcamlBasic ZArith NArith List.
-From Clemens Require Import Base.Res Search.Time.
+From Clemens Require Import Base.Res Base.Word Base.Bytes Search.Time.
+From Clemens Require Import Pos.Types Att.Attacks Pos.Position Pos.Fen.
 From ClemensGen Require Import GoConsts.
 
+(* the model instantiated with the constants of the current Go build *)
 Definition m_calc_time := calc_time maxTimeInMs.
 
-Extraction "clemens_model.ml" m_calc_time Z.of_N Z.to_N N.of_nat N.to_nat Z.opp Z.add Z.mul N.add N.mul.
+Definition go_keys : zkeys :=
+  {| zk_piece := zk_piece_tbl; zk_side := zk_side_key; zk_castling := zk_castling_tbl; zk_ep := zk_ep_tbl |}.
+Definition m_new_position := new_position go_keys.
+Definition m_new_from_fen := new_from_fen go_keys unicode_digit_tbl.
+Definition m_new_from_fen_unrepaired := new_from_fen_unrepaired go_keys unicode_digit_tbl.
+Definition m_to_fen := to_fen.
+Definition m_scratch_hash := scratch_hash go_keys.
+Definition m_make_move := make_move go_keys.
+Definition m_legal_moves := legal_moves go_keys.
+Definition m_make_null_move := make_null_move go_keys.
+Definition m_unmake_null_move := unmake_null_move go_keys.
+Definition m_move_from_string := move_from_string unicode_digit_tbl.
+Definition m_make_move_from_string := make_move_from_string go_keys unicode_digit_tbl.
+
+Extraction "clemens_model.ml"
+  m_calc_time
+  m_new_position m_new_from_fen m_new_from_fen_unrepaired m_to_fen m_scratch_hash m_make_move m_legal_moves
+  m_make_null_move m_unmake_null_move m_move_from_string m_make_move_from_string move_to_string
+  gen_moves gen_captures is_in_check is_legal is_capture square_attacked_by can_castle_now
+  rook_attacks bishop_attacks queen_attacks rook_walk bishop_walk rook_mask bishop_mask
+  knight_attacks king_attacks pawn_attacks pushes_by_square all_subsets magic_index
+  popcount lsb bits
+  Z.of_N Z.to_N N.of_nat N.to_nat Z.opp Z.add Z.mul N.add N.mul.
